@@ -321,6 +321,24 @@ func (g *genState) leafrefs() {
 	}
 	var walk func(parent, n *Node)
 	walk = func(parent, n *Node) {
+		if n.Kind == "leaf" && n.Type.Base == "union" {
+			// the string member of a union may be a leafref to a string leaf instead
+			for i, mt := range n.Type.Members {
+				if mt.Base != "string" || mt.Name != "" || len(mt.Patterns) > 0 || mt.Length != "" {
+					continue
+				}
+				for _, tg := range targets {
+					if tg != n && tg.Type.Base == "string" && tg.Type.Name == "" && len(tg.Type.Patterns) == 0 && tg.Type.Length == "" && rapid.IntRange(0, 2).Draw(g.t, "union-leafref-member?") == 0 {
+						cp := *n.Type
+						cp.Members = append([]*Type{}, n.Type.Members...)
+						cp.Members[i] = &Type{Base: "leafref", Path: "/" + tg.Name, Target: tg.Type}
+						n.Type = &cp
+						break
+					}
+				}
+				break
+			}
+		}
 		if n.IsLeafy() && n.Type.Base != "leafref" {
 			key, isTarget := false, false
 			for _, k := range parent.Keys {
@@ -565,7 +583,7 @@ func GenValue(t *rapid.T, ty *Type, label string, easy bool) string {
 			return "v"
 		}
 		// texts of a string member are such that no other member reads them
-		if m := ty.Members[rapid.IntRange(0, len(ty.Members)-1).Draw(t, label+"-member")]; m.Base != "string" {
+		if m := ty.Members[rapid.IntRange(0, len(ty.Members)-1).Draw(t, label+"-member")]; m.Eff().Base != "string" {
 			return GenValue(t, m, label, easy)
 		}
 		if !easy {
